@@ -2,6 +2,7 @@
 package c08
 
 import (
+	"sync"
 	"bytes"
 	"fmt"
 	"io"
@@ -99,12 +100,23 @@ var shapes = []shape{
 func TestC08(t *testing.T) {
 	rec := mon.Open("C08")
 	defer rec.Finish(t)
+	// Four cases at a time, each on a goroutine of its own: the indexes of one process (one per partition replica) are
+	// saved and loaded by independent loops, and what one of them writes or reads must not depend on the others.
 	n := rec.N(1500, 60000)
+	var wg sync.WaitGroup
+	sem := make(chan struct{}, 4)
 	for c := 0; c < n; c++ {
 		if rec.Mine(c) {
-			runCase(rec, c, -1)
+			wg.Add(1)
+			sem <- struct{}{}
+			go func(c int) {
+				defer wg.Done()
+				defer func() { <-sem }()
+				runCase(rec, c, -1)
+			}(c)
 		}
 	}
+	wg.Wait()
 	// metadata shapes, each a few times. Shapes that exceed a length field of
 	// the format can make Load misparse the stream and die with a runtime
 	// out-of-memory error, so each of those runs in a process of its own.
